@@ -63,6 +63,17 @@ def getIdx {α : Type} (l : List α) (i : Int) : Except Exc α :=
     | some a => .ok a
     | none => .error (.py .indexError)
 
+/-- `l[i] = v`; IndexError outside `-len ≤ i < len` -/
+def setIdx {α : Type} (l : List α) (i : Int) (v : α) : Except Exc (List α) :=
+  let j := if i < 0 then (l.length : Int) + i else i
+  if j < 0 ∨ j ≥ l.length then .error (.py .indexError) else .ok (l.set j.toNat v)
+
+/-- `l[lo:hi]` (`None` = absent bound) -/
+def listSlice {α : Type} (l : List α) (lo hi : Option Int) : List α :=
+  let a := match lo with | none => 0 | some i => listIdx l.length i
+  let b := match hi with | none => l.length | some i => listIdx l.length i
+  (l.take b).drop a
+
 /-- `while c(l[0]): del l[0]` — IndexError once the list is used up -/
 def dropWhileHead {α : Type} (c : α → Bool) : List α → Except Exc (List α)
   | [] => .error (.py .indexError)
@@ -121,6 +132,13 @@ def modifyAt (f : Fmts) (k : Int) (g : Point → Point) : Except Exc Fmts :=
   if k < 0 then .error .key
   else match f.get? k.toNat with
     | some _ => .ok (f.modify k.toNat g)
+    | none => .error .key
+
+/-- `del d[k]`; KeyError when absent -/
+def del (f : Fmts) (k : Int) : Except Exc Fmts :=
+  if k < 0 then .error .key
+  else match f.get? k.toNat with
+    | some _ => .ok (f.erase k.toNat)
     | none => .error .key
 
 /-- `sorted(d.keys(), reverse=True)` -/
